@@ -86,14 +86,17 @@ def strategy(tier):
     early = st.one_of(st.just([]), st.just([]), st.lists(
         st.tuples(st.sampled_from([0.0, 0.05, 0.2, 0.5, 1.0, 1.5, 2.5, 4.0]), st.sampled_from(EARLY_KINDS)).map(list),
         min_size=1, max_size=4))
+    # the timing table is (re-)selected - which wakes every config-aware sleeper - n times, gap ms apart, from t_start on
+    cfg = st.one_of(st.none(), st.none(), st.none(), st.tuples(st.sampled_from([0.0, 0.2, 0.5, 1.0]), st.integers(5, 60), st.sampled_from([10, 20, 30, 70]),
+                                                                 st.sampled_from(["same", "alternate"])).map(list))
     pentry = st.tuples(st.sampled_from([0.0, 0.0, 0.01, 0.05, 0.1, 0.3]), st.sampled_from(["statp", "statp", "rferr", "wcerr", "unknown", "junk"]),
                        st.integers(256, 1000), st.binary(min_size=2, max_size=2).map(bytes.hex), st.integers(0, 1)).map(list)
     pair = st.builds(lambda sc: {"k": "pair", "script": sc}, st.lists(pentry, min_size=1, max_size=12))
     single = st.builds(
-        lambda script, reqs, j, susp, early, burst: dict({"script": script, "reqs": reqs, "jitter": j, "suspend": susp, "early": early},
-                                                        **({"burst": burst} if burst else {})),
+        lambda script, reqs, j, susp, early, burst, cfg: dict({"script": script, "reqs": reqs, "jitter": j, "suspend": susp, "early": early},
+                                                             **({"burst": burst} if burst else {}), **({"cfg": cfg} if cfg else {})),
         st.lists(entry, min_size=1, max_size=16), st.lists(req, max_size=4), jitter,
-        st.lists(st.sampled_from([0.0, 0.0, 0.05, 0.35, 1.2]), max_size=6), early, burst)
+        st.lists(st.sampled_from([0.0, 0.0, 0.05, 0.35, 1.2]), max_size=6), early, burst, cfg)
     return st.integers(0, 9).flatmap(lambda i: pair if i == 0 else single)
 
 
@@ -295,6 +298,17 @@ def run_case(case) -> Result:
                 waiters[-1].set_name("VP:" + name)
             if lose:
                 W.s2c_filter = lose_filter
+            cfg = case.get("cfg")
+            cfg_task = None
+            if cfg:
+                from geckolib.config import set_config_mode
+
+                async def reselect():
+                    await W.sleep(float(cfg[0]))
+                    for i in range(min(int(cfg[1]), 80)):
+                        set_config_mode(bool(i % 2) if cfg[3] == "alternate" else False)
+                        await W.sleep(max(5, int(cfg[2])) / 1000.0)
+                cfg_task = asyncio.ensure_future(reselect())
             burst = case.get("burst")
             burst_task = None
             if burst:
@@ -333,6 +347,8 @@ def run_case(case) -> Result:
                 await W.sleep(0.2)
             if burst_task is not None:
                 await burst_task
+            if cfg_task is not None:
+                await cfg_task
             W.s2c_filter = None
             await W.drain([q], quiet=1.5, limit=200)
             await W.sleep(2.0)
@@ -369,6 +385,17 @@ def run_case(case) -> Result:
                     elif fam not in allowed:
                         res.fail(f"C07|popped-by-incapable|{task}|{fam}",
                                  f"{task} removed {data[:60]!r} (family {fam}) which it does not accept")
+            # ---- oracle 2b: the catch-all's grace.  A datagram whose verb a standing consumer accepts is "unhandled" only if that consumer
+            # had its chance: it may be discarded no sooner than one full polling interval after it became the head of the queue
+            for i, plist in pops.items():
+                if i is None:
+                    continue
+                fam = family_of(q.items[i])
+                for t_, task, marked in plist:
+                    if task == CATCH_ALL and fam in ("partial", "rferr", "wcerr", "packet") and q.residence.get(i, 9.9) < vworld.POLL - 1e-6:
+                        res.fail(f"C07|discarded-before-owner-could-poll|{fam}", f"{q.items[i][:40]!r} was discarded as unhandled {q.residence[i] * 1000:.0f} ms after it "
+                                 f"reached the head of the queue (the consumers poll every {vworld.POLL * 1000:.0f} ms)")
+                        break
             # ---- oracle 3: head residence
             bound = 6 * (vworld.POLL + J) + 1e-3
             for i, r in q.residence.items():
@@ -448,6 +475,8 @@ def run_case(case) -> Result:
         res.label("jittered")
     if case.get("early"):
         res.label("noise-during-handshake")
+    if case.get("cfg"):
+        res.label("timing-table-reselected-during-traffic")
     if case.get("burst"):
         res.label("burst-" + str(case["burst"][3]), "flood" if case["burst"][1] > 64 and case["burst"][2] == 0 else "stream")
     if any(len(r_) > 2 and r_[2] for r_ in case.get("reqs", [])):
